@@ -1,9 +1,192 @@
-(* C15 — library-chosen common is a most frequent value; equality is canonical.  (growing; see the final header) *)
-From Coq Require Import ZArith List Bool.
-From Catii Require Import Base.Sorted IIndex.Model IIndex.ModelFacts IIndex.OpsA IIndex.ShiftCommon IIndex.Count.
+(* C15 - the library-chosen common value is a most frequent value; equality is canonical.
+
+   [dense_count idx v] (IIndex/Count.v) = number of cells of the dense array holding v.
+   Part 1: after every normalisation in which the LIBRARY chooses the common value - shift_common() without an
+   argument, append, filtered, collapsed (whose closing from_array chooses), from_array without a common value -
+   no value occurs more often than the stored common value (ties may be broken either way: the theorems hold for
+   the model's choice, and for any other maximal value the dense content is the same by C06_shift_common_dense);
+   hence the stored row ids are as few as possible ([C15_stored_rowids]).
+   Part 2: [eq_model] mirrors __eq__ (shape, common, number of entries, every entry's row ids as a set against
+   other.get(coords, [])), [ne_model] mirrors the repaired __ne__.  For well-formed indexes == holds exactly when
+   shape, common value and dense content coincide ([same_content]); then the entries coincide up to order; != is
+   the negation; == is reflexive, symmetric and transitive.  Comparison with a non-index (False) is outside the
+   model's type and covered by the harness.
+   Proofs: IIndex/Count.v, CommonMax.v, OpsBProofs_collapsed.v, FromArrayCommon.v, HistoryCommon.v, EqProofs.v. *)
+From Coq Require Import ZArith List Bool Permutation.
+From Catii Require Import Base.Sorted IIndex.Res IIndex.Model IIndex.ModelFacts IIndex.OpsA IIndex.OpsB IIndex.Step
+  IIndex.ShiftCommon IIndex.Count IIndex.CommonMax IIndex.OpsAProofs_Append IIndex.OpsAProofs_FilteredAuto
+  IIndex.OpsBProofs_collapsed IIndex.FromArray IIndex.C01Proofs IIndex.FromArrayCommon IIndex.EqProofs IIndex.HistorySpec IIndex.History IIndex.HistoryB IIndex.HistoryCommon.
 Import ListNotations.
 Open Scope Z_scope.
 
-Theorem C15_auto_common_is_max idx : WF idx -> forall v, dense_count idx v <= dense_count idx (auto_common idx).
+(* ---- the automatic choice (iindexes.py:457-461: max of (count, value)) is a most frequent value ---- *)
+Theorem C15_auto_common_is_max idx :
+  WF idx -> forall v, dense_count idx v <= dense_count idx (auto_common idx).
 Proof. exact (auto_common_is_max idx). Qed.
 Print Assumptions C15_auto_common_is_max.
+
+(* the counts the library computes from the entries are the true cell counts *)
+Theorem C15_dense_count_all_counts idx v :
+  WF idx -> dense_count idx v = cnt_get v (all_counts idx).
+Proof. exact (dense_count_all_counts idx v). Qed.
+Print Assumptions C15_dense_count_all_counts.
+
+(* ---- after each library-chosen normalisation ---- *)
+Theorem C15_shift_auto_common_max idx :
+  WF idx ->
+  forall v, dense_count (shift_common_auto idx) v <= dense_count (shift_common_auto idx) (common (shift_common_auto idx)).
+Proof. exact (shift_auto_common_max idx). Qed.
+Print Assumptions C15_shift_auto_common_max.
+
+Theorem C15_append_common_max idx other :
+  WF idx -> WF other -> append_ok idx other ->
+  forall v, dense_count (append idx other) v <= dense_count (append idx other) (common (append idx other)).
+Proof. exact (append_common_max idx other). Qed.
+Print Assumptions C15_append_common_max.
+
+Theorem C15_filtered_common_max idx mask :
+  WF idx -> filtered_ok idx mask ->
+  forall v, dense_count (filtered idx mask) v <= dense_count (filtered idx mask) (common (filtered idx mask)).
+Proof. exact (filtered_common_max idx mask). Qed.
+Print Assumptions C15_filtered_common_max.
+
+Theorem C15_collapsed_common_max idx prec m out :
+  WF idx -> collapse_ok idx prec -> collapsed idx prec m = Ok out ->
+  forall v, dense_count out v <= dense_count out (common out).
+Proof. exact (collapsed_common_max idx prec m out). Qed.
+Print Assumptions C15_collapsed_common_max.
+
+Theorem C15_from_array_common_max a o s idx :
+  rect a -> a_nrows a <= 2 ^ 32 -> pre_data a o -> o_common o = None -> o_counts o = None ->
+  from_array a o s = Ok idx ->
+  forall w, dense_count idx w <= dense_count idx (common idx).
+Proof. exact (from_array_common_max a o s idx). Qed.
+Print Assumptions C15_from_array_common_max.
+
+Theorem C15_stored_rowids idx :
+  WF idx -> sum_len (entries idx) = size idx - dense_count idx (common idx).
+Proof. exact (stored_rowids idx). Qed.
+Print Assumptions C15_stored_rowids.
+
+(* ---- over histories: whenever the last step is one where the library chooses (Step.lib_chosen) ---- *)
+Theorem C15_step_common_max idx o idx' :
+  WF idx -> args_ok idx o -> lib_chosen o = true -> step idx o = Ok idx' ->
+  forall v, dense_count idx' v <= dense_count idx' (common idx').
+Proof. exact (step_common_max idx o idx'). Qed.
+Print Assumptions C15_step_common_max.
+
+Theorem C15_history_common_max ops o s0 s :
+  WF s0 -> hist_ok s0 (ops ++ [o]) -> lib_chosen o = true ->
+  run s0 (ops ++ [o]) = Ok s -> forall v, dense_count s v <= dense_count s (common s).
+Proof. exact (history_common_max ops o s0 s). Qed.
+Print Assumptions C15_history_common_max.
+
+(* ---- equality ---- *)
+Theorem C15_eq_spec a b :
+  WF a -> WF b -> (eq_model a b = true <-> same_content a b).
+Proof. exact (eq_spec a b). Qed.
+Print Assumptions C15_eq_spec.
+
+Theorem C15_canonical a b :
+  WF a -> WF b -> same_content a b -> Permutation (entries a) (entries b).
+Proof. exact (canonical a b). Qed.
+Print Assumptions C15_canonical.
+
+Theorem C15_eq_canonical a b :
+  WF a -> WF b -> eq_model a b = true -> Permutation (entries a) (entries b).
+Proof. exact (eq_canonical a b). Qed.
+Print Assumptions C15_eq_canonical.
+
+Theorem C15_ne_spec a b :
+  ne_model a b = negb (eq_model a b).
+Proof. exact (ne_spec a b). Qed.
+Print Assumptions C15_ne_spec.
+
+Theorem C15_ne_true_iff a b :
+  WF a -> WF b -> (ne_model a b = true <-> ~ same_content a b).
+Proof. exact (ne_true_iff a b). Qed.
+Print Assumptions C15_ne_true_iff.
+
+Theorem C15_eq_refl_wf a :
+  WF a -> eq_model a a = true.
+Proof. exact (eq_refl_wf a). Qed.
+Print Assumptions C15_eq_refl_wf.
+
+Theorem C15_eq_sym_wf a b :
+  WF a -> WF b -> eq_model a b = eq_model b a.
+Proof. exact (eq_sym_wf a b). Qed.
+Print Assumptions C15_eq_sym_wf.
+
+Theorem C15_eq_trans_wf a b c :
+  WF a -> WF b -> WF c ->
+  eq_model a b = true -> eq_model b c = true -> eq_model a c = true.
+Proof. exact (eq_trans_wf a b c). Qed.
+Print Assumptions C15_eq_trans_wf.
+
+(* ---- non-vacuity ---- *)
+Definition ex2 : iindex :=
+  {| entries := [((1, [0]), [0; 2]); ((2, [0]), [1]); ((1, [1]), [4]); ((7, [2]), [0; 1; 2; 3])];
+     common := 0; nrows := 5; hshape := [3] |}.
+Definition ex2b : iindex := {| entries := [((5, [1]), [0; 1])]; common := 7; nrows := 2; hshape := [3] |}.
+(* the same content as ex2, entries in another order *)
+Definition ex2_perm : iindex :=
+  {| entries := [((7, [2]), [0; 1; 2; 3]); ((1, [1]), [4]); ((1, [0]), [0; 2]); ((2, [0]), [1])];
+     common := 0; nrows := 5; hshape := [3] |}.
+(* one cell differs / the common differs / the shape differs *)
+Definition ex2_cell : iindex :=
+  {| entries := [((1, [0]), [0; 2]); ((2, [0]), [1]); ((1, [1]), [3]); ((7, [2]), [0; 1; 2; 3])];
+     common := 0; nrows := 5; hshape := [3] |}.
+Definition ex2_common : iindex :=
+  {| entries := [((1, [0]), [0; 2]); ((2, [0]), [1]); ((1, [1]), [4]); ((7, [2]), [0; 1; 2; 3])];
+     common := 3; nrows := 5; hshape := [3] |}.
+Definition ex2_shape : iindex :=
+  {| entries := [((1, [0]), [0; 2]); ((2, [0]), [1]); ((1, [1]), [4]); ((7, [2]), [0; 1; 2; 3])];
+     common := 0; nrows := 6; hshape := [3] |}.
+
+Example C15_nonvacuous_common :
+  WF ex2 /\ WF ex2b /\ append_ok ex2 ex2b /\ filtered_ok ex2 [true; false; true; true; false] /\ collapse_ok ex2 [7; -1; 1] /\
+  (* the most frequent value changes through append: 0 (7 of 15 cells) before, 7 (8 of 21 cells against 7 zeros) after *)
+  common (append ex2 ex2b) = 7 /\ dense_count (append ex2 ex2b) 7 = 8 /\ dense_count (append ex2 ex2b) 0 = 7 /\
+  common (filtered ex2 [true; false; true; true; false]) = 0 /\
+  match collapsed ex2 [7; -1; 1] None with Ok out => common out = 7 /\ dense_rows out = [[7]; [7]; [7]; [7]; [1]] | Err _ => False end /\
+  common (shift_common_auto ex2) = 0.
+Proof.
+  split; [apply wf_b_spec; vm_compute; reflexivity|].
+  split; [apply wf_b_spec; vm_compute; reflexivity|].
+  split; [split; [reflexivity|vm_compute; discriminate]|].
+  split; [reflexivity|].
+  split; [apply collapse_ok_b_sound; vm_compute; reflexivity|].
+  vm_compute. repeat split; reflexivity.
+Qed.
+Print Assumptions C15_nonvacuous_common.
+
+Example C15_nonvacuous_from_array :
+  let a := arr2 2 [[1; -2]; [3; 1]; [1; 1]; [256; 3]; [-2; -2]] in
+  let o := {| o_counts := None; o_common := None; o_mapping := Some [(1, 7); (-2, 7); (3, 9); (256, 7)] |} in
+  rect a /\ pre_data a o /\
+  match from_array a o Where, from_array a o RowScan with
+  | Ok i1, Ok i2 => common i1 = 7 /\ common i2 = 7 /\ dense_count i1 7 = 8 /\ dense_count i1 9 = 2 /\ wf_b i1 = true
+  | _, _ => False
+  end.
+Proof.
+  split; [apply rect_b_sound; vm_compute; reflexivity|].
+  split; [|vm_compute; repeat split; reflexivity].
+  constructor.
+  - intros v Hv. vm_compute in Hv |- *. tauto.
+  - intros v Hv. vm_compute in Hv. unfold mapping_defined. cbn [o_mapping].
+    destruct Hv as [<-|[<-|[<-|[<-|[]]]]]; vm_compute; discriminate.
+  - intros c Hc. discriminate.
+Qed.
+Print Assumptions C15_nonvacuous_from_array.
+
+Example C15_nonvacuous_eq :
+  WF ex2 /\ WF ex2_perm /\ WF ex2_cell /\ WF ex2_common /\ WF ex2_shape /\
+  eq_model ex2 ex2_perm = true /\ ne_model ex2 ex2_perm = false /\ eq_model ex2_perm ex2 = true /\
+  eq_model ex2 ex2_cell = false /\ ne_model ex2 ex2_cell = true /\
+  eq_model ex2 ex2_common = false /\ eq_model ex2 ex2_shape = false /\
+  entries ex2 <> entries ex2_perm.
+Proof.
+  repeat (split; [first [apply wf_b_spec; vm_compute; reflexivity | vm_compute; reflexivity]|]).
+  discriminate.
+Qed.
+Print Assumptions C15_nonvacuous_eq.
